@@ -585,7 +585,7 @@ func (env *Env) eval(e ast.Expr) *Term {
 		cfail("unsupported selector %s in contract", exprString(e))
 	case *ast.StarExpr:
 		p := env.eval(e.X)
-		return x.load(env.st, p, env.typeOf(e))
+		return env.typedLoad(p, env.typeOf(e))
 	case *ast.UnaryExpr:
 		switch e.Op {
 		case token.NOT:
@@ -771,7 +771,7 @@ func (env *Env) walkFields(pl place, path []int) place {
 		if p, ok := types.Unalias(pl.typ).Underlying().(*types.Pointer); ok {
 			var pv *Term
 			if pl.addr != nil {
-				pv = x.load(env.st, pl.addr, pl.typ)
+				pv = env.typedLoad(pl.addr, pl.typ)
 			} else {
 				pv = pl.val
 			}
@@ -793,9 +793,21 @@ func (env *Env) walkFields(pl place, path []int) place {
 
 func (env *Env) readPlace(pl place) *Term {
 	if pl.addr != nil {
-		return env.fr.x.load(env.st, pl.addr, pl.typ)
+		return env.typedLoad(pl.addr, pl.typ)
 	}
 	return pl.val
+}
+
+// typedLoad: a load made by a contract expression. A pointer read directly from a memory symbol (the entry memory
+// or the memory a havoc created) carries the typing fact the engine states for pointers loaded by the code; it is
+// stated unconditionally, which is safe for such terms (a free memory symbol never reduces to a particular object).
+func (env *Env) typedLoad(addr *Term, t types.Type) *Term {
+	x := env.fr.x
+	v := x.load(env.st, addr, t)
+	if v.sort == SRef && !v.open && v.op == "select" && v.args[0].op == "var" {
+		x.ptrTag(x.c.True(), v, t)
+	}
+	return v
 }
 
 func (env *Env) evalCall(e *ast.CallExpr) *Term {
